@@ -28,7 +28,7 @@ type c09Spec struct {
 	Kind    string `json:"kind"` // publish | aggregate
 	Match   int    `json:"match"`
 	Static  bool   `json:"static"`
-	Replace int    `json:"replace_match"` // dynamic: match index after update (-1: none)
+	Replace int    `json:"replace_match"`             // dynamic: match index after update (-1: none)
 	Rename  bool   `json:"replace_renames,omitempty"` // the update also gives the handler another id
 	Remove  bool   `json:"remove"`
 }
@@ -240,7 +240,157 @@ func c09Failed(err error) int {
 	return n
 }
 
+// ---- a topic that is deleted and comes into being again under the same name ----
+// (what happens to the topics of a task that is disabled and enabled again, or deleted and defined again)
+
+type c09RStep struct {
+	Kind  string `json:"kind"` // register | event | delete | close
+	Topic string `json:"topic"`
+	ID    string `json:"id,omitempty"`
+	Level int    `json:"lvl,omitempty"`
+}
+
+type c09RecreateScenario struct {
+	Kind   string     `json:"kind"`
+	Steps  []c09RStep `json:"steps"`
+	Config string     `json:"config"`
+}
+
+func runC09Recreate(c *Ctx) Verdict {
+	g := c.G
+	sc := &c09RecreateScenario{Kind: "a topic is deleted and created again"}
+	topics := []string{"r0", "r1"}
+	sc.Steps = append(sc.Steps, c09RStep{Kind: "register", Topic: "r0"})
+	n := g.Range(4, 14)
+	for i := 0; i < n; i++ {
+		switch k := g.Intn(10); {
+		case k == 0:
+			sc.Steps = append(sc.Steps, c09RStep{Kind: "register", Topic: topics[g.Intn(2)]})
+		case k <= 2:
+			// deleted (or closed, as a stopping task does) and, mostly, registered on again right away
+			tp := []string{"r0", "r0", "r1"}[g.Intn(3)]
+			sc.Steps = append(sc.Steps, c09RStep{Kind: []string{"delete", "close"}[g.Intn(2)], Topic: tp})
+			if g.Chance(3, 4) {
+				sc.Steps = append(sc.Steps, c09RStep{Kind: "register", Topic: tp})
+			}
+		default:
+			sc.Steps = append(sc.Steps, c09RStep{Kind: "event", Topic: []string{"r0", "r0", "r0", "r1"}[g.Intn(4)], ID: fmt.Sprintf("e%d", g.Intn(3)), Level: g.Intn(4)})
+		}
+	}
+	c.Scenario = sc
+	cfg := c.WorldConfig()
+	delete(cfg.Knobs, "MinimumEventBufferSize")
+	delete(cfg.Knobs, "DefaultEventBufferSize")
+	sc.Config = fmt.Sprintf("%v p=%.2f", cfg.Strategy, cfg.SwitchProb)
+	cfg.MaxSteps = 2_000_000
+	var verdict Verdict
+	type gen struct {
+		rec  *harness.RecHandler
+		want []string // messages owed to this handler
+	}
+	var gens []*gen
+	res := c.World(cfg, func() {
+		d, err := harness.NewDaemon(harness.DaemonOpts{})
+		if err != nil {
+			verdict = Fail("harness/setup", "daemon: %v", err)
+			return
+		}
+		live := map[string][]*gen{}                   // topic -> handlers registered since it last came into being
+		states := map[string]map[string]alert.Level{} // topic -> id -> level since it last came into being
+		base := time.Unix(0, simrt.Epoch).UTC()
+		for i, st := range sc.Steps {
+			switch st.Kind {
+			case "register":
+				gn := &gen{rec: &harness.RecHandler{Name: fmt.Sprintf("%s#%d", st.Topic, i)}}
+				gens = append(gens, gn)
+				live[st.Topic] = append(live[st.Topic], gn)
+				d.Alert.RegisterAnonHandler(st.Topic, gn.rec)
+			case "delete":
+				if err := d.Alert.DeleteTopic(st.Topic); err != nil {
+					verdict = Fail("harness/setup", "DeleteTopic: %v", err)
+					return
+				}
+				live[st.Topic], states[st.Topic] = nil, nil
+			case "close":
+				d.Alert.CloseTopic(st.Topic)
+				live[st.Topic], states[st.Topic] = nil, nil
+			case "event":
+				msg := fmt.Sprintf("step%d", i)
+				ev := alert.Event{Topic: st.Topic,
+					State: alert.EventState{ID: st.ID, Message: msg, Level: alert.Level(st.Level), Time: base.Add(time.Duration(i) * time.Second)},
+					Data:  alert.EventData{Name: "cpu", TaskName: "task0", Tags: map[string]string{"host": st.ID}}}
+				if err := d.Alert.Collect(ev); err != nil {
+					verdict = Fail("delivery/rejected", "step %d: collecting an event on topic %s failed: %v", i, st.Topic, err)
+					return
+				}
+				for _, gn := range live[st.Topic] {
+					gn.want = append(gn.want, msg)
+				}
+				if states[st.Topic] == nil {
+					states[st.Topic] = map[string]alert.Level{}
+				}
+				states[st.Topic][st.ID] = alert.Level(st.Level)
+			}
+			// the topic's level and event states are those of the events collected since it last came into being
+			for _, tp := range topics {
+				max := alert.OK
+				for _, l := range states[tp] {
+					if l > max {
+						max = l
+					}
+				}
+				ts, ok, _ := d.Alert.TopicState(tp)
+				if !ok {
+					if max != alert.OK {
+						verdict = Fail("state/recreated-topic", "after step %d (%+v): topic %s is unknown to the service although its ids are at %v", i, st, tp, states[tp])
+						return
+					}
+					continue
+				}
+				if ts.Level != max {
+					verdict = Fail("state/recreated-topic", "after step %d (%+v): topic %s reports level %v; the events collected on it since it last came into being leave its ids at %v", i, st, tp, ts.Level, states[tp])
+					return
+				}
+				for id := 0; id < 3; id++ {
+					es, ok, _ := d.Alert.EventState(tp, fmt.Sprintf("e%d", id))
+					want, has := states[tp][fmt.Sprintf("e%d", id)]
+					if ok != has || (ok && es.Level != want) {
+						verdict = Fail("state/recreated-topic", "after step %d (%+v): topic %s id e%d: service says level %v (known=%v), the events since the topic last came into being say %v (known=%v)", i, st, tp, id, es.Level, ok, want, has)
+						return
+					}
+				}
+			}
+		}
+		simrt.Fair()
+		simrt.WaitIdle()
+	})
+	if v, bad := WorldVerdict(res, false); bad {
+		return v
+	}
+	if verdict.Class != "" {
+		return verdict
+	}
+	owed := 0
+	for _, gn := range gens {
+		var got []string
+		for _, e := range gn.rec.Events {
+			got = append(got, e.Message)
+		}
+		owed += len(gn.want)
+		if strings.Join(got, " ") != strings.Join(gn.want, " ") {
+			return Fail("delivery/recreated-topic", "handler %s (registered at the step in its name, on the topic as it was then) received %v; the events collected on its topic while it was registered are %v", gn.rec.Name, got, gn.want)
+		}
+	}
+	if owed == 0 {
+		c.Trivial = true
+	}
+	return Pass()
+}
+
 func runC09(c *Ctx) Verdict {
+	if c.G.Chance(1, 8) {
+		return runC09Recreate(c)
+	}
 	sc := c09Gen(c)
 	c.Scenario = sc
 	cfg := c.WorldConfig()
